@@ -114,40 +114,67 @@ def _arm_result(f, arm_body, bind, v, push_names=("push",)):
 
 
 def byte_table(f, fn, rule, domain=range(256)):
-    """per-byte decoder `for ch in bytes.. { <body> }`: the loop body folded for every byte value:
-    ('push', code point) | ('err', variant) | ..; independent of whether the arms push or yield a value that is pushed"""
+    """per-byte (per-character) converter folded as a whole function on every one-element input: what it appends to its
+    output and what it returns - ('push', code point) | ('pushes', ..) | ('err', variant) | ('none',) | ('trap' | 'undecidable', why).
+    Independent of how the loop over the input is written and of helpers the conversion is delegated to."""
     b = f.thir.get(fn)
     need(b, rule, fn)
-    loop = None
-    for m in T.exprs(b["body"], "Match"):
-        fl = T.for_loop_parts(m)
-        if fl:
-            pat = fl[1]
-            while pat.get("k") == "Deref":      # `for &ch in bytes`
-                pat = pat["sub"]
-            if pat.get("k") == "Bind" and pat.get("ty") in ("u8", "char", "&u8"):
-                loop = (fl[0], pat, fl[2])
-                break
-    need(loop is not None, rule, fn, "(no `for ch in bytes` loop)")
-    var = loop[1]["name"]
-    inner = [m for m in T.exprs(loop[2], "Match") if m.get("source") == "Normal"]
+    pn = [p_["pat"]["name"] for p_ in b["params"] if p_.get("pat", {}).get("k") == "Bind"]
+    need(len(pn) == len(b["params"]) and pn, rule, fn, "(plain parameters)")
     table, site, rest = {}, {}, set()
+    # diagnostic positions: arms of matches on a u8/char variable
+    matches_ = []
+    for name2, b2 in f.thir.items():
+        if name2 == fn or name2.startswith(fn + "::{closure") or (T.canon(name2).rsplit("::", 1)[0] == T.canon(fn).rsplit("::", 1)[0]):
+            for m in T.exprs(b2["body"], "Match"):
+                sc = T.strip(m["scrut"])
+                if m.get("source") == "Normal" and sc.get("k") in ("Var", "Upvar") and sc.get("ty") in ("u8", "char") and name2.startswith(fn):
+                    matches_.append(m)
     for v in domain:
-        res = _arm_result_with_scrut(f, loop[2], None, var, v)
-        if res[0] == "undecidable" and "no arm matched" in res[1]:
-            rest.add(v)
+        pushes = []
+
+        def on_call(folder, c):
+            if T.sink_call(folder, c, pushes):
+                return None
+            cc = T.canon(T.callee_of(c))
+            if cc.split("::")[-1] in ("with_capacity", "new") and ("String" in cc or "Vec" in cc):
+                return T.Token("buffer")
+            return NotImplemented
+        env = {pn[0]: [v]}
+        for extra in pn[1:]:
+            env[extra] = T.Token("out")
+        fo = T.Folder(f, env=env, on_call=on_call, effects=True, local_calls=3)
+        try:
+            rv = fo.run(b["body"])
+            if isinstance(rv, dict) and rv.get("__variant__") == "Err":
+                inner = rv.get("#0")
+                res = ("err", inner.get("__variant__") if isinstance(inner, dict) else str(inner))
+            elif isinstance(rv, dict) and rv.get("__variant__") == "None":
+                res = ("none",)
+            elif len(pushes) == 1:
+                res = ("push", pushes[0])
+            elif pushes:
+                res = ("pushes", tuple(pushes))
+            else:
+                res = ("nothing",)
+        except T.Trap as ex:
+            res = ("trap", str(ex))
+        except T.Undecidable as ex:
+            res = ("undecidable", str(ex))
+            if "no arm matched" in str(ex):
+                rest.add(v)
         table[v] = res
-        # diagnostic position: the arm of the (first) match on the byte that covers v
-        for m in inner:
-            sc = T.strip(m["scrut"])
-            if sc.get("k") == "Var" and sc["name"] == var:
-                for arm in m["arms"]:
-                    try:
-                        if T.pat_values(arm["pat"], [v]):
-                            site[v] = T.span_str(arm["span"])
-                            break
-                    except Exception:
+        for m in matches_:
+            hit = False
+            for arm in m["arms"]:
+                try:
+                    if T.pat_values(arm["pat"], [v]):
+                        site[v] = T.span_str(arm["span"])
+                        hit = True
                         break
+                except Exception:
+                    break
+            if hit:
                 break
     return b, table, site, rest
 
@@ -231,7 +258,9 @@ def tab_l1(ctx):
     f = ctx.facts()
     obs = []
     # char -> byte
-    b, m = _byte_loop_match(f, "data::utf8_to_latin1", r)
+    b = f.thir.get("data::utf8_to_latin1")
+    need(b, r, "data::utf8_to_latin1")
+    m = b["body"]
     bounds = [0x100]
     for n in T.walk(m):
         if n.get("k") == "Const" and isinstance(n.get("val"), int):
@@ -358,7 +387,8 @@ def tab_dispatch(ctx):
                 return res(False, folder.apply_closure(cl, [a.get("#0")]))
             return NotImplemented
         env = {pn[0]: T.Token("bytes"), pn[1]: v, pn[2]: T.Token("out")}
-        out = T.Folder(f, env=env, on_call=on_call, effects=True).run(armsx[v][0])
+        # the whole dispatch is folded for this ECI number (guarded arms included), not just one arm body
+        out = T.Folder(f, env=env, on_call=on_call, effects=True).run(b["body"])
         err = None
         if isinstance(out, dict) and out.get("__variant__") == "Err":
             e0 = out.get("#0")
